@@ -50,6 +50,8 @@ def log_obligations(run, dom, rule, seen):
             continue
         seen.add(key)
         fi_loc = ''
+        if e['kind'] == 'refuse':
+            raise AnalysisError(e['text'])
         if e['ok']:
             run.ok(rule, e['fn'], e['text'])
         else:
